@@ -849,6 +849,30 @@ def run_chat(ctx, binp, cases):
     return obs
 
 
+def eval_handler(ctx, c, o, items, owners, tag, extra=None):
+    """monitor + model comparison for one POST /api/chat observation; False = the harness misbehaved"""
+    pc = as_prompt_case(c)
+    ctx.note_case({"handler": wire_chat(c), "tag": tag, "ri": (extra or {}).get("request_index")}, True, tag + ":" + classify(pc, o), sample=describe(pc, o))
+    want_conv = [{"role": m["role"].encode().hex(), "content": content_of(m).encode().hex(), "images": [img_bytes(i).hex() for i in m["images"]]} for m in pc["msgs"]]
+    if o.get("conv") != want_conv or (o.get("outcome") == 0 and o.get("num_ctx_used") != c["num_ctx"]):
+        ctx.obligation("harness c19chat ran the conversation it was given", False, json.dumps({"want": want_conv, "got": o.get("conv"), "num_ctx_used": o.get("num_ctx_used")})[:1500])
+        ctx.proof_failures.append({"obligation": "correspondence: harness c19chat", "detail": "conversation / num_ctx differ from the case"})
+        return False
+    j = judge(pc, o)
+    if j is not None:
+        sig = dict(j[0], via="POST /api/chat")
+        how = ""
+        if extra:
+            how = " [request %d of %d to one model, %s]" % (extra["request_index"] + 1, len(extra["multi_case"]["reqs"]),
+                                                           "first request parked in Tokenize while the others were served" if extra["multi_case"]["overlap"] else "served one after the other")
+            sig["requests"] = "overlapping" if extra["multi_case"]["overlap"] else "sequential"
+        ctx.violation(sig, "POST /api/chat" + how + ": " + j[1] + " -- " + json.dumps(describe(pc, o))[:1500],
+                      dict({"case": pc, "handler_case": c, "wire": wire_chat(c), "impl": o, "readable": describe(pc, o)}, **(extra or {})))
+    items.append(render_handler(c, o))
+    owners.append((c, o, extra))
+    return True
+
+
 def handler_check(ctx):
     """POST /api/chat through the real ChatHandler: what reaches the runner is the prompt of the whole conversation"""
     binp = ctx.go_build(**CHAT_BUILD)
@@ -874,20 +898,49 @@ def handler_check(ctx):
     obs = run_chat(ctx, binp, cases)
     if obs is None:
         return
-    items = []
+    items, owners = [], []
     for c, o in zip(cases, obs):
-        pc = as_prompt_case(c)
-        ctx.note_case({"handler": wire_chat(c)}, True, "handler:" + classify(pc, o), sample=describe(pc, o))
-        want_conv = [{"role": m["role"].encode().hex(), "content": content_of(m).encode().hex(), "images": [img_bytes(i).hex() for i in m["images"]]} for m in pc["msgs"]]
-        if o.get("conv") != want_conv or (o.get("outcome") == 0 and o.get("num_ctx_used") != c["num_ctx"]):
-            ctx.obligation("harness c19chat ran the conversation it was given", False, json.dumps({"want": want_conv, "got": o.get("conv"), "num_ctx_used": o.get("num_ctx_used")})[:1500])
-            ctx.proof_failures.append({"obligation": "correspondence: harness c19chat", "detail": "conversation / num_ctx differ from the case"})
+        if not eval_handler(ctx, c, o, items, owners, "handler"):
             return
-        j = judge(pc, o)
-        if j is not None:
-            ctx.violation(dict(j[0], via="POST /api/chat"), "POST /api/chat: " + j[1] + " -- " + json.dumps(describe(pc, o))[:1500],
-                          {"case": pc, "handler_case": c, "wire": wire_chat(c), "impl": o, "readable": describe(pc, o)})
-        items.append(render_handler(c, o))
+    # several requests to one model: A, B, A in order (stale shared state) and A parked inside the runner's Tokenize
+    # while B is served completely (state shared between overlapping requests)
+    multi = []
+    for i in range(40 if ctx.quick() else 300):
+        st = rng.choice(fixed_styles()) if rng.random() < 0.3 else rnd_style(rng)
+        k = rng.choice([0, 1, 2, 3, 3, 5, 5, 6, 7])
+        model_msgs = [{"id": j, "role": ("user", "assistant")[j % 2], "body": rnd_body(rng), "images": []} for j in range(k)]
+        system = None if rng.random() < 0.55 else {"id": 900, "role": "system", "body": rnd_body(rng), "images": []}
+
+        def req(base):
+            ms = [{"id": base, "role": "user", "body": rnd_body(rng) + " q%d" % base, "images": []}]
+            if rng.random() < 0.3:
+                ms = [{"id": base + 1, "role": rng.choice(["user", "assistant", "system"]), "body": rnd_body(rng), "images": []}] + ms
+            return {"msgs": ms, "num_ctx": 2048 if rng.random() < 0.7 else rng.choice([3, 8, 15, 30])}
+        a, b = req(100), req(200)
+        overlap = i % 2 == 0
+        multi.append({"style": st, "system": system, "model_msgs": model_msgs, "reqs": [a, b] if overlap else [a, b, dict(a)], "overlap": overlap,
+                      "park": ("(%d:" % a["msgs"][-1]["id"]).encode().hex()})
+    env = dict(vlib.goenv(), VERIF_C19_CHAT="1")
+    wm = lambda ms: [{"role": m["role"].encode().hex(), "content": content_of(m).encode().hex(), "images": [], "tool_calls": 0} for m in ms]
+    wires = [{"tmpl": style_text(c["style"]).encode().hex(), "system": (content_of(c["system"]) if c["system"] else "").encode().hex(), "model_msgs": wm(c["model_msgs"]),
+              "reqs": [{"msgs": wm(r["msgs"]), "num_ctx": r["num_ctx"]} for r in c["reqs"]], "overlap": c["overlap"], "park": c["park"]} for c in multi]
+    mobs, err = ctx.run_jsonl(binp, wires, args=["-test.run", "TestVerifC19Chat$"], env=env)
+    if mobs is None or len(mobs) != len(multi) or any("multi" not in o for o in mobs):
+        ctx.obligation("harness c19chat answered every multi-request case", False, str(err)[-1500:] + json.dumps([o for o in mobs or [] if "multi" not in o][:2])[:800])
+        ctx.proof_failures.append({"obligation": "correspondence: harness c19chat (several requests per model) did not answer every case", "detail": str(err)[-1500:]})
+        return
+    nparked = 0
+    for c, mo in zip(multi, mobs):
+        nparked += 1 if mo.get("parked") else 0
+        for ri, (r, o) in enumerate(zip(c["reqs"], mo["multi"])):
+            hc = {"style": c["style"], "system": c["system"], "model_msgs": c["model_msgs"], "msgs": r["msgs"], "num_ctx": r["num_ctx"]}
+            decode_images(as_prompt_case(hc), o)
+            tag = "handler-overlap" if c["overlap"] else "handler-seq"
+            if not eval_handler(ctx, hc, o, items, owners, tag, extra={"multi_case": c, "request_index": ri, "parked": mo.get("parked"), "wire_multi": wires[multi.index(c)]}):
+                return
+    ctx.extra["handler_overlap_parked"] = nparked
+    ctx.obligation("overlapping requests really overlapped (request A parked in Tokenize in %d of %d cases)" % (nparked, sum(1 for c in multi if c["overlap"])),
+                   nparked * 2 >= sum(1 for c in multi if c["overlap"]))
     bad, log = ctx.coq_eval(HEADER, items, per_file=max(20, len(items) // 8 + 1), name="handler")
     if bad is None:
         ctx.obligation("correspondence: handler model evaluated on all cases", False, log)
@@ -896,8 +949,9 @@ def handler_check(ctx):
     ctx.disagreements_checked += len(items)
     ctx.obligation("correspondence: model = POST /api/chat on %d requests" % len(items), not bad)
     for i in bad[:10]:
-        pc = as_prompt_case(cases[i])
-        ctx.mismatch("Prompt/Corr.chk_handler", {"readable": describe(pc, obs[i]), "handler_case": cases[i], "wire": wire_chat(cases[i])}, obs[i],
+        hc, o, extra = owners[i]
+        pc = as_prompt_case(hc)
+        ctx.mismatch("Prompt/Corr.chk_handler", dict({"readable": describe(pc, o), "handler_case": hc, "wire": wire_chat(hc)}, **(extra or {})), o,
                      ctx.coq_print(HEADER, model_term(pc)) if len(ctx.mismatches) < 3 else None)
 
 
@@ -909,6 +963,28 @@ def replay(ctx, path):
     if not c and not hc:
         return run(ctx)
     ctx.proof_stage(["Prompt"], "Prompt/Properties_C19.v", extra_targets=["Prompt/Corr.v"])
+    if hc and rp.get("multi_case"):       # several requests to one model (in order / overlapping): re-run them all
+        binp = ctx.go_build(**CHAT_BUILD)
+        if not binp:
+            return
+        mc = rp["multi_case"]
+        mobs, err = ctx.run_jsonl(binp, [rp["wire_multi"]], args=["-test.run", "TestVerifC19Chat$"], env=dict(vlib.goenv(), VERIF_C19_CHAT="1"))
+        if not mobs or "multi" not in mobs[0]:
+            ctx.obligation("harness c19chat answered the replayed case", False, str(err)[-1500:])
+            ctx.proof_failures.append({"obligation": "correspondence: harness c19chat did not answer the replayed case", "detail": str(err)[-1500:]})
+            return
+        items, owners = [], []
+        for ri, (r, o) in enumerate(zip(mc["reqs"], mobs[0]["multi"])):
+            h = {"style": mc["style"], "system": mc["system"], "model_msgs": mc["model_msgs"], "msgs": r["msgs"], "num_ctx": r["num_ctx"]}
+            decode_images(as_prompt_case(h), o)
+            print(json.dumps(describe(as_prompt_case(h), o), indent=1))
+            eval_handler(ctx, h, o, items, owners, "handler-overlap" if mc["overlap"] else "handler-seq",
+                         extra={"multi_case": mc, "request_index": ri, "parked": mobs[0].get("parked"), "wire_multi": rp["wire_multi"]})
+        bad, log = ctx.coq_eval(HEADER, items, name="handler")
+        ctx.obligation("correspondence: model = POST /api/chat on the replayed requests", bad == [], log)
+        for i in bad or []:
+            ctx.mismatch("Prompt/Corr.chk_handler", {"handler_case": owners[i][0]}, owners[i][1])
+        return
     if hc:       # a POST /api/chat case
         binp = ctx.go_build(**CHAT_BUILD)
         obs = run_chat(ctx, binp, [hc]) if binp else None
